@@ -809,6 +809,17 @@ fn app_step(w: &mut World, st: &mut St, n: usize, tape: &mut Tape) -> Result<boo
     if matches!(state, tcp::State::Established | tcp::State::CloseWait) {
         a.ever_established = true;
     }
+    // the application reconfigures keep-alive on a live connection now and then (an armed keep-alive
+    // deadline has to be honoured or dropped consistently by poll_at and dispatch)
+    if a.ever_established && tape.draw(40) == 39 {
+        let new = if s.keep_alive().is_some() { None } else { Some(dur_us(*tape.pick(&[100_000i64, 1_000_000, 5_000_000]))) };
+        guard("tcp::set_keep_alive", || s.set_keep_alive(new))?;
+        if new.is_some() {
+            st.keep_alive[n] = true;
+        }
+        w.stats.inc("app.keep-alive-reconfigured");
+        did = true;
+    }
     if a.err || a.aborted {
         return Ok(false);
     }
